@@ -48,8 +48,9 @@ def shared_formatter(ctx):
             continue
         args = fmt[0].args
         # (value, type) of the same cell
-        ok = len(args) == 2 and unparse(args[0]).endswith('value') or \
-            (len(args) == 2 and unparse(args[0]) in ('nval',))
+        from ..astutil import canon
+        ok = len(args) == 2 and canon(args[0], node).rstrip('>').endswith(
+            '.value')
         tyok = len(args) == 2 and unparse(args[1]).endswith('.type')
         if not (ok and tyok):
             ctx.finding(rule, construct + ':args',
@@ -181,8 +182,8 @@ def exponent_alphabet(ctx):
                             f'PRINT/STR$ is rejected when read back',
                             f.file, f.line)
     # leading sign/blank: n >= 0 gets a blank; negative gets '-'
-    ok = any(isinstance(n, ast.If) and unparse(n.test) == 'n >= 0' and
-             "' ' + s" in unparse(n) for n in ast.walk(fn.node))
+    from .. import pat
+    ok = pat.has("if n >= 0:\n    _S = ' ' + _S", fn.node)
     ctx.instance(rule, f'{fn.file}:format_number:leading-blank')
     if not ok:
         ctx.finding(rule, f'{fn.file}:format_number:leading-blank',
